@@ -360,14 +360,15 @@ def parse_pattern(ts):
             return {"kind": "lit", "v": l[1]}
     if len(ts) == 1 and is_id(ts[0]):
         return {"kind": "bind", "name": ts[0]["s"]}
-    if len(ts) == 5 and is_id(ts[0]) and is_p(ts[1], "@") and ts[2]["t"] == "lit" and is_p(ts[3], "..=") and ts[4]["t"] == "lit":
+    # `lo..=hi` and the half-open `lo..hi` (= lo..=hi-1) are the same pattern; "hi" is always the inclusive bound
+    if len(ts) == 5 and is_id(ts[0]) and is_p(ts[1], "@") and ts[2]["t"] == "lit" and (is_p(ts[3], "..=") or is_p(ts[3], "..")) and ts[4]["t"] == "lit":
         lo, hi = parse_lit(ts[2]["s"]), parse_lit(ts[4]["s"])
         if lo and hi and lo[0] == hi[0] == "int":
-            return {"kind": "range", "lo": lo[1], "hi": hi[1], "bind": ts[0]["s"]}
-    if len(ts) == 3 and ts[0]["t"] == "lit" and is_p(ts[1], "..=") and ts[2]["t"] == "lit":
+            return {"kind": "range", "lo": lo[1], "hi": hi[1] - (0 if is_p(ts[3], "..=") else 1), "bind": ts[0]["s"]}
+    if len(ts) == 3 and ts[0]["t"] == "lit" and (is_p(ts[1], "..=") or is_p(ts[1], "..")) and ts[2]["t"] == "lit":
         lo, hi = parse_lit(ts[0]["s"]), parse_lit(ts[2]["s"])
         if lo and hi and lo[0] == hi[0] == "int":
-            return {"kind": "range", "lo": lo[1], "hi": hi[1], "bind": None}
+            return {"kind": "range", "lo": lo[1], "hi": hi[1] - (0 if is_p(ts[1], "..=") else 1), "bind": None}
     raise Unrecognised("tag pattern: %s" % tok_text(ts))
 
 
